@@ -7,6 +7,7 @@ package dicescript
 import (
 	"bytes"
 	"encoding/json"
+	"sort"
 	"sync"
 	"sync/atomic"
 	"unsafe"
@@ -395,6 +396,25 @@ func (m *ValueMap) Range(f func(key string, value *VMValue) bool) {
 		}
 		if !f(k, v) {
 			break
+		}
+	}
+}
+
+// rangeSorted calls f for every entry in ascending key order. Whatever a script can observe of a dict
+// (its keys, values, items and its text) goes through here, so that it does not depend on Go's
+// randomised map iteration order and a seeded evaluation is reproducible.
+func (m *ValueMap) rangeSorted(f func(key string, value *VMValue) bool) {
+	var keys []string
+	m.Range(func(key string, _ *VMValue) bool {
+		keys = append(keys, key)
+		return true
+	})
+	sort.Strings(keys)
+	for _, key := range keys {
+		if value, ok := m.Load(key); ok {
+			if !f(key, value) {
+				return
+			}
 		}
 	}
 }
